@@ -317,7 +317,7 @@ func (d *docGen) document() (*jnode, *osm.OSM) {
 func (d *docGen) damage(doc *jnode, i int) string {
 	es := doc.get("elements")
 	if es == nil || len(es.arr) == 0 {
-		doc.set("elements", jobj())
+		doc.put("elements", jobj())
 		return "elements-object"
 	}
 	e := es.arr[len(es.arr)/2+d.rng.Intn(len(es.arr)-len(es.arr)/2)] // second half of the document
@@ -342,43 +342,43 @@ func (d *docGen) damage(doc *jnode, i int) string {
 		*e.get("id") = *jdec(15, 1)
 		return "id-fraction"
 	case 5:
-		e.set("tags", jarr(js("a")))
+		e.put("tags", jarr(js("a")))
 		return "tags-array"
 	case 6:
-		e.set("tags", jobj().set("k", jint(1)))
+		e.put("tags", jobj().set("k", jint(1)))
 		return "tag-value-number"
 	case 7:
 		if typ == "way" {
-			e.set("nodes", jobj())
+			e.put("nodes", jobj())
 			return "nodes-object"
 		}
 		e.get("type").s = ""
 		return "empty-type"
 	case 8:
 		if typ == "way" {
-			e.set("nodes", jarr(jint(1), jdec(25, 1)))
+			e.put("nodes", jarr(jint(1), jdec(25, 1)))
 			return "node-id-fraction"
 		}
 		*e = *jint(7)
 		return "element-number"
 	case 9:
 		if typ == "relation" {
-			e.set("members", js("x"))
+			e.put("members", js("x"))
 			return "members-string"
 		}
 		*e = *jn()
 		return "element-null"
 	case 10:
-		doc.set("version", jb(true))
+		doc.put("version", jb(true))
 		return "version-bool(ok)"
 	case 11:
-		doc.set("generator", jint(3))
+		doc.put("generator", jint(3))
 		return "generator-number"
 	case 12:
-		e.set("visible", js("true"))
+		e.put("visible", js("true"))
 		return "visible-string"
 	}
-	e.set("uid", jint(1).withBig())
+	e.put("uid", jint(1).withBig())
 	return "uid-overflow"
 }
 
